@@ -671,6 +671,7 @@ func (sp *Specs) loadTrustedSpecs(dir string) {
 				sb.WriteString("\n")
 				continue
 			}
+			t = stripHashComment(t)
 			if strings.HasPrefix(t, "//@") || strings.HasPrefix(t, "// @") {
 				sb.WriteString(t + "\n")
 			} else {
@@ -679,4 +680,18 @@ func (sp *Specs) loadTrustedSpecs(dir string) {
 		}
 		sp.parseSpecText(f, sb.String(), "")
 	}
+}
+
+// stripHashComment removes a trailing "# ..." (outside string literals) from a .spec line.
+func stripHashComment(s string) string {
+	inStr := false
+	for i := 0; i < len(s); i++ {
+		if s[i] == '"' && (i == 0 || s[i-1] != '\\') {
+			inStr = !inStr
+		}
+		if !inStr && s[i] == '#' && i > 0 && (s[i-1] == ' ' || s[i-1] == '\t') {
+			return strings.TrimSpace(s[:i])
+		}
+	}
+	return s
 }
